@@ -6,7 +6,7 @@ rapid cases per shard (each test scales it with its own weight), shards_quick/sh
 
 ASSUME_WB = [
     "white-box harness: package snaps compiled from /repo with overlay test files; fake testingT runs Cleanup at the end of the simulated test",
-    "a simulated process = fresh registries/events/skip list + mode variables (isCI, UPDATE_SNAPS) set directly",
+    "a simulated process = every package-level variable of snaps, match and difflib re-initialised from its declaration (generated from the sources at build time) + mode variables (isCI, UPDATE_SNAPS) set directly; one in 16 generated cases is re-checked in a brand-new process of the test binary",
     "formatted text is computed by calling kr/pretty (a dependency, not code under test)",
 ]
 
@@ -14,7 +14,7 @@ PROPS = {
     "C01": dict(
         rule="case = pre-existing well-formed file(s) + 1-4 tests (prefix-related names) with 1-14 MatchSnapshot/MatchJSON/MatchYAML calls each; "
              "run 1 records with updating enabled, run 2 replays the same calls read-only (default / Update(false) / CI / UPDATE_SNAPS=clean) in a permuted test order, tests executed 1-3 times, optionally interleaved like parallel tests. "
-             "Lines include BOM-prefixed lines and lines of buffer-boundary lengths (4095-4097, 65535-65537). cross_build_replay stage (black box): a real test program records with a normal or -trimpath build and the other build replays read-only (CI or not, -count 1-2): no failure, no write. "
+             "Pre-existing files may have CRLF line ends. Lines include BOM-prefixed lines and lines of buffer-boundary lengths (4095-4097, 65535-65537). cross_build_replay stage (black box): a real test program records with a normal or -trimpath build and the other build replays read-only (CI or not, -count 1-2): no failure, no write. "
              "non-trivial = the case contains a terminator/escape line, blank line, edge newline, empty body, header-looking line, invalid UTF-8, a line > 64 KiB, "
              ">= 10 calls in one test, >= 2 entry kinds in one file, a structured Go value, or pre-existing entries; distinct = distinct canonical JSON",
         assumptions=ASSUME_WB + ["carriage return at the end of a line (documented limitation) is excluded by construction and counted"],
@@ -40,7 +40,7 @@ PROPS = {
     "C03": dict(
         rule="case = history: 1-4 tests (prefix-related names, fixed call programs of 1-13 slots over 1-2 files) x 1-3 processes (mode: default / UPDATE_SNAPS=true / other / CI) "
              "x 1-4 executions per process (re-executions, partial executions) whose calls are interleaved like parallel tests, with failing calls (invalid JSON/YAML, failing matcher), "
-             "per-call Update options and pre-existing foreign entries; after EVERY call the observed outcome is compared with a slot model and both files are re-parsed with the reference parser. "
+             "per-call Update options, pre-existing foreign entries and optionally a conversion of all files to CRLF line ends between two processes; after EVERY call the observed outcome is compared with a slot model and both files are re-parsed with the reference parser. "
              "non-trivial = >= 2 tests and at least one of: prefix-related names, re-execution, interleaving, calls after a failing call, >= 10 calls, header-like body, per-call update option; "
              "distinct = distinct canonical JSON of the history. concurrent_slots stage: the C06 scenario/schedule generator on the controlled scheduler (2-4 tests sharing a file, 0-3 preemptions): "
              "every call addresses its own slot and no slot is lost or reverted by another test's concurrent write",
@@ -50,7 +50,8 @@ PROPS = {
     ),
     "C04": dict(
         rule="case = file recorded by a first process (1-3 tests, 1-12 calls each over all five APIs, plus foreign pre-existing entries), a second process with updating enabled "
-             "(UPDATE_SNAPS=true, or Update(true) under any UPDATE_SNAPS) in which a generated subset of calls changes value (shorter, longer, empty, terminator/header-like, multi-line), "
+             "(UPDATE_SNAPS=true, or Update(true) under any UPDATE_SNAPS) in which a generated subset of calls changes value (shorter, longer, empty, terminator/header-like, multi-line; same length; multi-KiB), "
+             "optionally after the recorded file was converted to CRLF line ends, "
              "then a read-only process. Checked per call: outcome, no write at all for unchanged values (mtime), only the addressed file written, entry list re-parsed with the reference parser "
              "(no residue, others byte-identical and in place), standalone files equal the new formatted value. non-trivial = a changed entry that is shorter, or >= 2 changed entries, "
              "or a changed non-last entry, or a standalone update; distinct = distinct canonical JSON",
@@ -61,7 +62,7 @@ PROPS = {
         rule="the full table CI{on,off} x Update option{unset,true,false} x UPDATE_SNAPS{unset,true,clean,other string} x Clean sort{on,off} x 5 entry points x entry state{missing,equal,different} "
              "x obsolete items{present,absent} = 1440 cells, enumerated completely; per cell the values and the 'other' string come from seeded generators. Each cell = a preparation run and one real process of a "
              "data-driven test program (real environment variables, real TestMain + snaps.Clean); the observed call outcome and the directory delta are compared with the statement's table written as a pure function. "
-             "The pre-existing snapshot is presented as the library wrote it, or (every 4th multi-entry cell) converted to CRLF line ends, or (every 3rd standalone cell with an existing file) as a symbolic link to the real file. "
+             "The pre-existing snapshot is presented as the library wrote it, or (every 4th multi-entry cell) converted to CRLF line ends, or (every 3rd standalone cell with an existing file) as a symbolic link to the real file, or (cells without sort/obsolete items) with a second entry of an id that occurs already. "
              "non-trivial = cells in which a create, rewrite, delete or sort is requested by the situation; every cell is distinct",
         assumptions=["black-box: scenario program compiled against /repo with `replace`, executed with an explicit minimal environment", "UPDATE_SNAPS and CI are read by the real init code of the process"],
         stages=[dict(name="table", engine="bb", run="^TestC05_", quick=1, thorough=1, shards_quick=8, shards_thorough=16)],
@@ -69,7 +70,7 @@ PROPS = {
     "C06": dict(
         rule="schedules: package snaps is rebuilt with a yield before every statement and cooperative mutexes; a case = concurrent scenario (2-4 tests with distinct, prefix-related names sharing one file, 1-3 calls each of "
              "{create, match, mismatch without update, update}, foreign pre-existing entries, shuffled initial order) x schedule (0-3 preemptions at yields placed with weight on file-system/lock statements, tie-break choices). "
-             "values include entries of 4800 and 9000 bytes (beyond 4096/8192 buffer sizes). exhaustive stage: every schedule with <= 2 preemptions of fixed two-task scenarios (1 scenario quick, 4 thorough); "
+             "values include entries of 4800 and 9000 bytes (beyond 4096/8192 buffer sizes). exhaustive stage: every schedule with <= 2 preemptions of four fixed two-task scenarios (quick: the first at every yield, the others at yields in front of file-system/lock/registry statements; thorough: every yield); the cooperative RWMutex models writer preference (recursive read locks deadlock as in sync.RWMutex); "
              "exhaustive_big: every single preemption (thorough: every pair) of two scenarios with such big entries. Oracle: every call gets its serial outcome; the final file parses, keeps the initial entries in order with "
              "updated bodies, holds exactly one entry per created slot; no deadlock. race stage: generated goroutine mixes of the five APIs, Skip* and one shared Config under the race detector. "
              "non-trivial = >= 1 preemption and >= 2 writing tasks (schedules); >= 2 APIs (race); distinct = distinct canonical JSON",
@@ -96,7 +97,7 @@ PROPS = {
     ),
     "C08": dict(
         rule="case = real test program (2-5 top-level tests with prefix/substring-related names TestAlpha/TestAlphaBeta/TestAl, TestBeta/TestB, ..., generated subtests up to depth 2, calls under default, shared custom Filename, custom Ext "
-             "and standalone configs) recorded once; second run with a generated subset of tests calling snaps.Skip/Skipf/SkipNow (before any or after some calls) and/or a generated -test.run (names, substrings, alternations, "
+             "and standalone configs) recorded once; second run with a generated subset of tests calling snaps.Skip/Skipf/SkipNow (before any or after some calls) and/or a generated -test.run (a pool of names, substrings, alternations, and patterns derived from the program's own test names: anchored per element, end-anchored, quoted or not, cut short; "
              "multi-level patterns, anchors, patterns matching only a subtest name or a digit), Clean in report/clean mode x sort, plus stale entries of prefix siblings and children of skipped tests. "
              "The program itself reports which tests started (the real runner is the oracle). Oracle: every item recorded for a test (or part of a test) that did not run survives byte-identically and is not listed; "
              "conversely (no -run) stale entries not protected by a skip are reported/removed. Losses matching the signatures of known findings K2-K5 are exempted and counted; K2-K5 are probed by minimal programs. "
@@ -111,7 +112,7 @@ PROPS = {
     "C09": dict(
         rule="case = as C07 but -run empty, with skip-protected tests (snaps.Skip/Skipf/SkipNow before any or after some calls, always in files shared with running tests), "
              "stale entries (absent tests, ordinals beyond the calls), stale multi-entry and standalone files, unrelated files, sub-directories (one named sub.snap), an unaddressed directory, -count 1-3, all modes x sort, "
-             "directory names with glob metacharacters + siblings, -test.cpu lists, more addressed files (36-60) than free descriptors (24) during Clean. "
+             "directory names with glob metacharacters + siblings, -test.cpu lists, more addressed files (36-60) than free descriptors (24) during Clean, a read-only tree during Clean (file-system uid of the thread unprivileged; scenarios in which Clean has to write are excluded). "
              "Oracle: reported set contains every stale item of the model and no addressed item; removed iff reported and deletion allowed; everything else byte- and mtime-identical. "
              "non-trivial = at least one stale entry and one stale file present; distinct = distinct canonical JSON",
         assumptions=ASSUME_WB + ["skip-protected entries are exempt from the completeness demand (C08 judges them)"],
@@ -150,7 +151,7 @@ PROPS = {
         rule="case = document D (JSON tree or block YAML), 1-3 pairwise non-nested masked paths with matchers satisfiable on D (Any with plain/non-ASCII/quoted placeholders, Type[T] of the node's type, Custom returning a constant), "
              "D' = D with every masked value replaced by another value satisfying the same matcher (other scalars, null, long strings, containers), D'' = D or D' with one uncovered scalar changed; "
              "merged form: all masked paths in ONE Any with ErrOnMissingPath(false), interleaved with paths that do not exist and are textual prefixes / extensions of the existing ones (sibling keys sharing a prefix); keys `$`, `a:b`; "
-             "matcher values reused after a warm-up document. "
+             "matcher values reused after a warm-up document; YAML input optionally a stream holding the document twice; changed numbers include the integer neighbour (last digit +-1, ids beyond 2^53). "
              "Oracle: stored(D) == stored(D') byte-for-byte, each replays read-only against the other's snapshot without writing, D'' reports exactly one error. "
              "non-trivial = at least one masked path and D' differs textually from D; the D'' class is counted separately; distinct = distinct canonical JSON",
         assumptions=ASSUME_WB + ["Type[any] is excluded (the placeholder records the dynamic type by design)", "cases on which a matcher reports an error on D or D' are counted as trivial"],
@@ -158,7 +159,7 @@ PROPS = {
     ),
     "C17": dict(
         rule="case = document + 1-5 matchers of which a generated subset fails (missing path, wrong type for Type, Custom returning an error) in any order, some missing paths under ErrOnMissingPath(false), "
-             "matcher pairs where the second fails only because the first (satisfiable) one replaced its target (parent then child; the same Type twice), options chained or applied as statements, "
+             "11-14 failing matchers in one call, YAML nulls (null, ~, bare key) as wrong-type targets, matcher pairs where the second fails only because the first (satisfiable) one replaced its target (parent then child; the same Type twice), options chained or applied as statements, "
              "mode in {create allowed, update enabled with an existing different entry, Update(false), CI}, JSON / standalone JSON / YAML, 0-2 calls before and 1-3 calls after. "
              "Oracle: one failure naming match.<Name>(\"<path>\") for every failing matcher, nothing written (mtime), later calls land in slots k+1...; with only tolerated missing paths the call proceeds per mode. "
              "non-trivial = a failing and a satisfiable matcher together, or update-enabled mode with an existing entry, or a tolerated missing path; distinct = distinct canonical JSON",
@@ -168,7 +169,7 @@ PROPS = {
     "C18": dict(
         rule="case = YAML text from a grammar (block mappings/sequences, flow collections incl. header-looking `[TestA - 2]`, comments, quoted/plain/block scalars with `---` and `/-/-/-/` lines, "
              "multi-document streams with ---/... (separators also with trailing blanks, tabs or a comment), %YAML directive, anchors/aliases, trailing blank lines, with/without final newline, optional leading BOM; LF only), split by the YAML library itself into valid and invalid; "
-             "constructed invalid inputs (unclosed flow/quote, tab indentation, undefined alias); Go values (nested maps with varied key order, tagged structs, multi-line strings); documents with a matcher (final newline). "
+             "constructed invalid inputs (unclosed flow/quote, tab indentation, undefined alias, duplicate keys next to merge keys); Go values of string/byte-like kinds ([]uint8-kind enums, named strings, net.IP) stored as the YAML library marshals them with the fixed encoder options; Go values (nested maps with varied key order, tagged structs, multi-line strings); documents with a matcher (final newline). "
              "Oracle: stored body == escape(input) byte-for-byte, read-only replay passes without writing; Go values store identical text in two processes; invalid = one `invalid yaml` failure, nothing written, ordinal consumed. "
              "non-trivial = document with a separator line, comment, header-looking line, terminator in a block scalar, no final newline or trailing blank lines; or a Go value; or an invalid input; distinct = distinct canonical JSON",
         assumptions=ASSUME_WB + ["validity is delegated to goccy/go-yaml (only used to split the domain); the verbatim clause is judged on bytes"],
@@ -177,7 +178,8 @@ PROPS = {
     "C19": dict(
         rule="case = one test (names with '/', '%', unicode) making 1-12 calls (MatchStandaloneSnapshot with arbitrary bytes incl. CR/CRLF/`---`/NUL/invalid UTF-8 and structured values, "
              "MatchStandaloneJSON, interleaved MatchSnapshot, MatchStandaloneJSON calls that are rejected in every process (invalid JSON, failing matcher) and still are the k-th call) under configs with/without Filename/Ext (also containing '%'), executed 1-3 times per process. Four processes: record (exact file set and bytes), "
-             "read-only replay (passes, no write), changed values without update (one error, untouched), update (file replaced wholesale, unchanged files not written). "
+             "read-only replay (passes, no write), changed values without update (one error, untouched), update (file replaced wholesale, unchanged files not written); values of 64 KiB and more with a one-byte change. "
+             "real_program stage (black box): a real test program, also checked out under a path with '%' and a blank, normal and -trimpath builds: file k holds exactly value k and replays on CI. "
              "non-trivial = a value with CR, a terminator-like line, an empty value, >= 2 executions, >= 10 calls, or an update to a shorter value; distinct = distinct canonical JSON",
         assumptions=ASSUME_WB + ["standalone ordinals count per resolved file pattern (README: _1.snap and _1.snap.html for different Ext)"],
         stages=[dict(name="standalone", run="^TestC19_", quick=800, thorough=10000, shards_quick=4, shards_thorough=16),
@@ -187,7 +189,7 @@ PROPS = {
         rule="sequential: histories as C03 (every process executes a test at most once) with all outcome classes (passed, added, updated, failed by mismatch / invalid input / failing matcher / missing on CI / "
              "directory that cannot be created), snaps.Skip* calls, Clean at the end of every process in any mode x sort with stale entries and unaddressed files; oracle: per call exactly one outcome signal "
              "equal to the model's class, summary totals == harness tallies, obsolete lists == model's stale set == what Clean removed. concurrent: 2-8 goroutines (distinct names, one shared file) with predicted "
-             "classes, then the same summary oracle. non-trivial = >= 2 failure/skip kinds or >= 2 processes (sequential), >= 3 outcome kinds (concurrent); distinct = distinct canonical JSON",
+             "classes, then the same summary oracle. all-entry-points scenario: clean scenarios of C07/C09 (incl. read-only tree, descriptor limit) with totals and the obsolete FILE list compared. non-trivial = >= 2 failure/skip kinds or >= 2 processes (sequential), >= 3 outcome kinds (concurrent); distinct = distinct canonical JSON",
         assumptions=ASSUME_WB + ["MatchSnapshot without values (documented warning) is excluded", "the summary grammar parsed is the NO_COLOR one"],
         stages=[dict(name="summary", run="^TestC20_", quick=500, thorough=5000, shards_quick=4, shards_thorough=16),
                 dict(name="real_process", engine="bb", run="^TestC20BB_", quick=30, thorough=400, shards_quick=4, shards_thorough=16),
@@ -196,9 +198,9 @@ PROPS = {
     "C11": dict(
         rule="case = one test function of a real test program (root package, sub, sub/deep/er) whose body is a generated tree of 1-4 steps per level: calls of the five entry points with Dir in {unset, relative, nested relative, ../up, "
              "./x/../x, absolute}, Filename (incl. '%', dots, unicode, spaces), Ext (incl. '.snap', '.%s'), package-level functions, call shapes {direct, closure, helper in the test file, helper in a non-test file, helper in another package} "
-             "with 0-100 extra frames, inside subtests / nested subtests with names containing '%', '/', spaces, rejected calls (invalid JSON/YAML) that still consume their ordinal, optionally a second test function from another test file in the same process. "
-             "Every case is executed eight times: normal / -trimpath build x cwd = package dir / foreign cwd x GOFLAGS in the environment (unset, -trimpath, unrelated, -trimpath=false, -gcflags=-trimpath=/src); each time the exact set of created files (and the entry ids inside multi-entry files) must equal the statement's formula computed from the known source path. "
-             "every case is non-trivial (eight build/cwd/GOFLAGS variants); classes record option kinds, shapes, helper depth; distinct = distinct canonical JSON",
+             "with 0-100 extra frames, inside subtests / nested subtests with names containing '%', '/', spaces, rejected calls (invalid JSON/YAML) that still consume their ordinal, optionally a second test function from another test file in the same process, subtests whose function is declared in a NON-test file (suite shape); odd shards run the program from a directory with '%' and a blank in its name. "
+             "Every case is executed nine times: normal / -trimpath build x cwd = package dir / foreign cwd x GOFLAGS in the environment (unset, -trimpath, unrelated, -trimpath=false, -gcflags=-trimpath=/src), and once with -test.count=2; each time the exact set of created files (and the entry ids inside multi-entry files) must equal the statement's formula computed from the known source path. "
+             "every case is non-trivial (nine build/cwd/GOFLAGS/-count variants); classes record option kinds, shapes, helper depth; distinct = distinct canonical JSON",
         assumptions=["the file name is asserted only when the first *_test.go frame is the file that declares the test function (the scenario program is built that way)", "-trimpath is asserted for cwd = package directory only (documented limitation otherwise)"],
         stages=[dict(name="location", engine="bb", run="^TestC11_", quick=60, thorough=1500, shards_quick=8, shards_thorough=16, trimpath=True)],
     ),
@@ -219,7 +221,7 @@ PROPS = {
     ),
     "C13": dict(
         rule="cases are ordered pairs of texts (+ colour flag): exhaustive over line sequences of a 3-letter alphabet, "
-             "random pairs from the hostile line alphabet related by 1-3 edits (1 in 40 made right after a 64-1100 KiB comparison: the report must equal the one in isolation), large texts (>10 / >=200 lines with popular lines), "
+             "random pairs from the hostile line alphabet related by 1-3 edits (1 in 40 made right after a 64-1100 KiB comparison: the report must equal the one in isolation; CRLF-vs-LF presentations of the same lines), large texts (>10 / >=200 lines with popular lines), "
              "and enumerated huge texts whose number of distinct lines sits on 0x7FFF/0x8001, 0xD7FF-0xE001, 0xFFFD-0x10001. "
              "non-trivial = texts differ and (>=2 hunks, or repeated lines, or >10 lines, or whitespace-only / invalid-UTF-8 difference, or inline path taken); "
              "distinct = distinct canonical JSON of the case",
